@@ -245,3 +245,67 @@ package st
 //@   opt: channels=quiet
 //@   requires p != nil
 //@   modifies *
+//@ func (*Table).WriteUnderWriteLock
+//@   props: S01
+//@   level: PA
+//@   nosafe
+//@   opt: only=lock-order
+//@   opt: lock-order=mu
+//@   opt: guarded=slots:mu;n:mu
+//@   requires t != nil
+//@   modifies *
+//@ func (*Table).WriteUnderReadLock
+//@   props: S01
+//@   level: PA
+//@   nosafe
+//@   opt: only=lock-order
+//@   opt: lock-order=mu
+//@   opt: guarded=slots:mu;n:mu
+//@   requires t != nil
+//@   modifies *
+//@ func (*Table).CompactUnderReadLock
+//@   props: S01
+//@   level: PA
+//@   nosafe
+//@   opt: only=lock-order
+//@   opt: lock-order=mu
+//@   opt: guarded=slots:mu;n:mu
+//@   requires t != nil
+//@   modifies *
+//@ func (*Table).ElementWriteAfterUnlock
+//@   props: S01
+//@   level: PA
+//@   nosafe
+//@   opt: only=lock-order
+//@   opt: lock-order=mu
+//@   opt: guarded=slots:mu;n:mu
+//@   requires t != nil
+//@   modifies *
+//@ func (*Table).setLocked
+//@   props: S01
+//@   level: PA
+//@   nosafe
+//@   opt: only=lock-order
+//@   opt: lock-order=mu
+//@   opt: guarded=slots:mu;n:mu
+//@   opt: holds=mu
+//@   requires t != nil
+//@   modifies *
+//@ func (*Table).CallsHelperWithLock
+//@   props: S01
+//@   level: PA
+//@   nosafe
+//@   opt: only=lock-order
+//@   opt: lock-order=mu
+//@   opt: guarded=slots:mu;n:mu
+//@   requires t != nil
+//@   modifies *
+//@ func (*Table).CallsHelperWithoutLock
+//@   props: S01
+//@   level: PA
+//@   nosafe
+//@   opt: only=lock-order
+//@   opt: lock-order=mu
+//@   opt: guarded=slots:mu;n:mu
+//@   requires t != nil
+//@   modifies *
